@@ -78,6 +78,71 @@ fn install_hook() {
     }));
 }
 
+/// Known findings (class, key prefix) of this property, read from the file the supervisor names in VERIF_KNOWN.
+/// Only enumerated sweeps use it, to carry on past a known site instead of ending the run there; the
+/// supervisor still decides what is reported.
+static KNOWN: std::sync::OnceLock<Vec<(String, String)>> = std::sync::OnceLock::new();
+
+pub fn load_known(property: &str) {
+    let mut v = Vec::new();
+    if let Some(path) = std::env::var_os("VERIF_KNOWN") {
+        if let Ok(text) = std::fs::read_to_string(path) {
+            for line in text.lines() {
+                let Some(rest) = line.strip_prefix("known:") else { continue };
+                let rest = rest.split(" what=").next().unwrap_or("");
+                let mut prop = "";
+                let mut key = "";
+                let mut class = "";
+                for tok in rest.split_whitespace() {
+                    if let Some(x) = tok.strip_prefix("property=") {
+                        prop = x;
+                    } else if let Some(x) = tok.strip_prefix("key=") {
+                        key = x;
+                    } else if let Some(x) = tok.strip_prefix("class=") {
+                        class = x;
+                    }
+                }
+                if prop == property && !key.is_empty() {
+                    v.push((class.to_string(), key.to_string()));
+                }
+            }
+        }
+    }
+    let _ = KNOWN.set(v);
+}
+
+pub fn is_known(class: &str, key: &str) -> bool {
+    KNOWN.get().map(|v| v.iter().any(|(c, k)| (c.is_empty() || c == class) && key.starts_with(k.as_str()))).unwrap_or(false)
+}
+
+/// Run one sub-case of an enumerated sweep. A panic is turned into the violation the runner would report
+/// (same class and key); a violation that is a listed known finding is counted and swallowed so that the
+/// sweep carries on behind it.
+pub fn sweep_case(ctx: &Ctx, f: impl FnOnce() -> R<()>) -> R<()> {
+    LAST_PANIC.with(|p| *p.borrow_mut() = None);
+    let r = catch_unwind(AssertUnwindSafe(f));
+    let v = match r {
+        Ok(Ok(())) => return Ok(()),
+        Ok(Err(v)) => v,
+        Err(_) => {
+            let (msg, loc) = LAST_PANIC.with(|p| p.borrow_mut().take()).unwrap_or_default();
+            let comp = COMPONENT.with(|c| c.borrow().clone());
+            let short = loc.trim_start_matches("/repo/").to_string();
+            HARNESS_DEPTH.with(|d| d.set(0));
+            if loc.starts_with("HARNESS:") || loc.contains("/verif/sim/") || (!loc.starts_with('/') && !loc.is_empty()) {
+                ctx.violation("harness_panic", &format!("harness/panic@{short}"), format!("harness panic at {loc}: {msg}"))
+            } else {
+                ctx.violation("panic", &format!("{comp}/panic@{short}"), format!("panic at {loc}: {msg}"))
+            }
+        }
+    };
+    if is_known(&v.class, &v.key) {
+        ctx.count(&format!("known_in_sweep.{}|{}", v.class, v.key), 1);
+        return Ok(());
+    }
+    Err(v)
+}
+
 pub struct RunOut {
     pub violation: Option<Violation>,
     pub rec: RunRecord,
@@ -140,6 +205,7 @@ fn replay_json(property: &str, s: &Scenario, seed: u64, run: u64, thorough: bool
 pub fn main_with(property: &str, scenarios: &[Scenario]) {
     let args: Vec<String> = std::env::args().collect();
     install_hook();
+    load_known(property);
     let cmd = args.get(1).map(|s| s.as_str()).unwrap_or("");
     match cmd {
         "list" => {
